@@ -928,7 +928,11 @@ def make_model_with_random_weights():
         else:
             graph_or_function = proto
         used_types: set[str] = set()
-        for t in list(graph_or_function.input) + list(graph_or_function.output):
+        values = list(graph_or_function.input) + list(graph_or_function.output)
+        if self.skip_initializers and isinstance(proto, ModelProto):
+            # printed as `value_infos = {...}` by _translate_graph
+            values += list(graph_or_function.value_info)
+        for t in values:
             if hasattr(t, "type"):
                 ts = _translate_type(t.type)
                 its = ts.split("[", maxsplit=1)[0]
